@@ -2,6 +2,6 @@ SPECIFICATION Spec
 CONSTANTS MaxLen = 3
           MaxSubs = 1
 CONSTRAINT Bound
-INVARIANTS TypeOK ContigExact ReplicaBelowTruth RunsOK
+INVARIANTS SealedReadOnly TypeOK ContigExact ReplicaBelowTruth RunsOK
 PROPERTIES AppendOnly ReadOnlyFrozen
 CHECK_DEADLOCK FALSE
